@@ -20,26 +20,29 @@ Record obj := { o_addr : nat;   (* id(o) *)
                 o_uid : nat;    (* which object it is (never reused) *)
                 o_sem : nat }.  (* what it means to the callee: for an is_leaf callable the mask of leaf kinds it accepts *)
 
+(* Python values as the key computation sees them.  bool is a subclass of int, True == 1 and hash(True) == hash(1):
+   a bool IS the int 0/1 here (the conflation is built into the representation).  None is an object like any other
+   (the singleton at address 0). *)
 Inductive arg :=
-| AStr (s : string) | AInt (z : Z) | ABool (b : bool) | ASlice (a b c : option Z) | AEll
-| ANone                              (* the None singleton: goes through id() like every other object *)
-| AObj (o : obj)                     (* callables, tensors, floats, ... : by id() *)
+| AStr (s : string) | AInt (z : Z) | ASlice (a b c : option Z) | AEll
+| AObj (o : obj)                     (* None, callables, tensors, floats, ... : by id() *)
 | ASeq (l : list arg).               (* list or tuple: unfolded recursively into a tuple *)
 
 Inductive katom :=
 | KStr (s : string) | KInt (z : Z) | KSlice (a b c : option Z) | KEll | KId (addr : nat) | KTup (l : list katom).
 
-Definition none_addr : nat := 0.     (* objects handed in by callers have addresses >= 1 *)
+Definition none_obj : obj := {| o_addr := 0; o_uid := 0; o_sem := 0 |}.     (* callers' objects have addresses >= 1 *)
+Definition ANone : arg := AObj none_obj.
+Definition ABool (b : bool) : arg := AInt (if b then 1 else 0)%Z.
+Definition is_none (a : arg) : bool := match a with AObj o => Nat.eqb (o_addr o) 0 | _ => false end.
 
-(* utils.py:889 _unfold_sequence, one item.  isinstance(True, int): a bool is yielded as itself and (True,) == (1,) *)
+(* utils.py:889 _unfold_sequence, one item *)
 Fixpoint unfold_arg (a : arg) : katom :=
   match a with
   | AStr s => KStr s
   | AInt z => KInt z
-  | ABool b => KInt (if b then 1 else 0)%Z
   | ASlice a b c => KSlice a b c
   | AEll => KEll
-  | ANone => KId none_addr
   | AObj o => KId (o_addr o)
   | ASeq l => KTup (map unfold_arg l)
   end.
@@ -100,6 +103,7 @@ Fixpoint strip (p q : path) : option path :=
   | x :: p', y :: q' => if String.eqb x y then strip p' q' else None
   | _ :: _, [] => None
   end.
+Definition path_mem (p : path) (l : list path) : bool := existsb (path_eqb p) l.
 Definition is_prefix (p q : path) : bool := match strip p q with Some _ => true | None => false end.
 Definition proper_prefix (p q : path) : bool := match strip p q with Some (_ :: _) => true | _ => false end.
 
@@ -185,7 +189,8 @@ Definition node_locked (s : state) (n : node) : bool :=
 (* ------------------------------------------------------------------------------------------------ binding of arguments *)
 Definition truthy (a : arg) : bool :=
   match a with
-  | ABool b => b | AInt z => negb (Z.eqb z 0) | AStr s => negb (String.eqb s "") | ANone => false
+  | AInt z => negb (Z.eqb z 0) | AStr s => negb (String.eqb s "")
+  | AObj o => negb (Nat.eqb (o_addr o) 0)                                  (* None is falsy *)
   | ASeq l => negb (match l with [] => true | _ => false end) | _ => true
   end.
 
@@ -233,61 +238,69 @@ Definition signature (m : meth) : list (string * arg) * list (string * arg) :=
   end.
 
 (* ------------------------------------------------------------------------------------------------ fresh computations *)
+(* A method of node p sees the tensordict through [view_of s p]: the nodes at or below p and the entries below p with
+   paths relative to p, and — only if a lazy stack lies in that subtree, because stacking copies — the element store. *)
+Record ninfo := { i_uid : nat; i_kind : nkind; i_meta : nmeta }.
+Record sview := { v_nodes : list (path * ninfo); v_leaves : list (path * leaf); v_store : list (nat * Z) }.
+
+Definition info (n : node) : ninfo := {| i_uid := n_uid n; i_kind := n_kind n; i_meta := n_meta n |}.
+Definition leaves_under (s : state) (p : path) : list (path * leaf) :=
+  flat_map (fun ql => match strip p (fst ql) with Some r => [(r, snd ql)] | None => [] end) (leaves s).
+Definition nodes_under (s : state) (p : path) : list (path * ninfo) :=
+  flat_map (fun n => match strip p (n_path n) with Some r => [(r, info n)] | None => [] end) (nodes s).
+Definition has_lazy (l : list (path * ninfo)) : bool := existsb (fun rn => nkind_eqb (i_kind (snd rn)) NLAZY) l.
+Definition view_of (s : state) (p : path) : sview :=
+  {| v_nodes := nodes_under s p; v_leaves := leaves_under s p;
+     v_store := if has_lazy (nodes_under s p) then store s else [] |}.
+
+Definition nontensor_fn : obj := {| o_addr := 2; o_uid := 2; o_sem := 7 |}.   (* tensordict.base._is_leaf_nontensor, a module-level function *)
 Definition mask_default : nat := 1.        (* _default_is_leaf / _NESTED_TENSORS_AS_LISTS: tensors *)
 Definition mask_nontensor : nat := 7.      (* _is_leaf_nontensor: tensors and non-tensor data *)
 Definition leaf_ok (mask : nat) (l : leaf) : bool := Nat.testbit mask (kind_bit (l_kind l)).
-Definition mask_of (a : arg) (dflt : nat) : nat := match a with AObj o => o_sem o | _ => dflt end.
+Definition mask_of (a : arg) (dflt : nat) : nat := match a with AObj o => if Nat.eqb (o_addr o) 0 then dflt else o_sem o | _ => dflt end.
 Definition pins_of (l : list arg) : list obj :=
-  flat_map (fun a => match a with AObj o => [o] | _ => [] end) l.
+  flat_map (fun a => match a with AObj o => if Nat.eqb (o_addr o) 0 then [] else [o] | _ => [] end) l.
 
-Definition leaves_under (s : state) (p : path) : list (path * leaf) :=
-  flat_map (fun ql => match strip p (fst ql) with Some r => [(r, snd ql)] | None => [] end) (leaves s).
-Definition nodes_under (s : state) (p : path) : list (path * node) :=          (* proper descendants *)
-  flat_map (fun n => match strip p (n_path n) with Some (x :: r) => [(x :: r, n)] | _ => [] end) (nodes s).
+Definition default_meta : nmeta := {| m_bs := []; m_names := None; m_dev := 0 |}.
+Definition self_meta (v : sview) : nmeta :=
+  match find (fun rn => path_eqb (fst rn) []) (v_nodes v) with Some rn => i_meta (snd rn) | None => default_meta end.
+Definition metas (v : sview) : list (path * nmeta) := map (fun rn => (fst rn, i_meta (snd rn))) (v_nodes v).
+Definition sub_nodes (v : sview) : list (path * ninfo) := filter (fun rn => match fst rn with [] => false | _ => true end) (v_nodes v).
+Definition members (v : sview) : list (path * ninfo) := filter (fun rn => match fst rn with [_] => true | _ => false end) (v_nodes v).
 
-(* does the way from node p down to the entry at p ++ r cross a lazy stack (p itself included)? *)
-Definition crosses_lazy (s : state) (p r : path) : bool :=
-  existsb (fun n => nkind_eqb (n_kind n) NLAZY && is_prefix p (n_path n) && proper_prefix (n_path n) (p ++ r)) (nodes s).
+(* does the way from the viewing node down to the entry at r cross a lazy stack (the viewing node included)? *)
+Definition crosses_lazy (v : sview) (r : path) : bool :=
+  existsb (fun rn => nkind_eqb (i_kind (snd rn)) NLAZY && proper_prefix (fst rn) r) (v_nodes v).
 
 (* content of an entry: tensors and NonTensorStacks are mutable objects (content in the store, changed by in-place writes);
    a NonTensorData is immutable (a new payload is a new object) *)
 Definition content_of (st : list (nat * Z)) (l : leaf) : Z :=
   match l_kind l with KNonTensorData => l_payload l | _ => store_get st (l_stor l) end.
 
-Definition materialise (s : state) (l : leaf) : item :=
-  ICopy (l_kind l) (content_of (store s) l) (l_dtype l) (l_numel l).     (* torch.stack / lazy_stack of the members' entries *)
+Definition materialise (v : sview) (l : leaf) : item :=
+  ICopy (l_kind l) (content_of (v_store v) l) (l_dtype l) (l_numel l).     (* torch.stack / lazy_stack of the members' entries *)
 Definition share (l : leaf) : item := IShare (l_kind l) (l_stor l) (l_payload l) (l_dtype l) (l_numel l).
 
-(* entries as a traversal from node p hands them out: the object itself, or a stacked copy below a lazy stack *)
-Definition entry_item (s : state) (p : path) (rl : path * leaf) : path * item :=
-  (fst rl, if crosses_lazy s p (fst rl) then materialise s (snd rl) else ILeaf (snd rl)).
-Definition entry_share (s : state) (p : path) (rl : path * leaf) : path * item :=
-  (fst rl, if crosses_lazy s p (fst rl) then materialise s (snd rl) else share (snd rl)).
-
-Definition depth1 (rl : path * leaf) : bool := match fst rl with [_] => true | _ => false end.
-
-Definition meta_under (s : state) (p : path) : list (path * nmeta) :=
-  flat_map (fun n => match strip p (n_path n) with Some r => [(r, n_meta n)] | None => [] end) (nodes s).
-
+(* entries as a traversal hands them out: the object itself, or a stacked copy below a lazy stack *)
+Definition entry_item (v : sview) (rl : path * leaf) : path * item :=
+  (fst rl, if crosses_lazy v (fst rl) then materialise v (snd rl) else ILeaf (snd rl)).
+Definition entry_share (v : sview) (rl : path * leaf) : path * item :=
+  (fst rl, if crosses_lazy v (fst rl) then materialise v (snd rl) else share (snd rl)).
 Definition entry_ref (rl : path * leaf) : path * item := (fst rl, ILeaf (snd rl)).
+
+Definition depth1 {A} (rl : path * A) : bool := match fst rl with [_] => true | _ => false end.
 
 (* [mat]: entries below a lazy stack come as stacked copies (collapse=True / default traversal) or, with
    _NESTED_TENSORS_AS_LISTS, as the members' own entries *)
-Definition values_of (s : state) (p : path) (incl lo : bool) (mask : nat) (mat : bool) : list (path * item) :=
-  let ls := leaves_under s p in
+Definition values_of (v : sview) (incl lo : bool) (mask : nat) (mat : bool) : list (path * item) :=
+  let ls := v_leaves v in
   let ls := if incl then ls else filter depth1 ls in
   let ls := if lo then filter (fun rl => leaf_ok mask (snd rl)) ls else ls in
   let ns := if lo then [] else
-              map (fun rn => (fst rn, INode (n_uid (snd rn))))
-                  (if incl then nodes_under s p else filter (fun rn => match fst rn with [_] => true | _ => false end) (nodes_under s p)) in
-  map (if mat then entry_item s p else entry_ref) ls ++ ns.
+              map (fun rn => (fst rn, INode (i_uid (snd rn)))) (if incl then sub_nodes v else filter depth1 (sub_nodes v)) in
+  map (if mat then entry_item v else entry_ref) ls ++ ns.
 
 Fixpoint nat_mem (x : nat) (l : list nat) : bool := match l with [] => false | y :: r => Nat.eqb x y || nat_mem x r end.
-Fixpoint dedup_leaves (seen : list nat) (l : list (path * leaf)) : list (path * leaf) :=
-  match l with
-  | [] => []
-  | rl :: r => if nat_mem (l_uid (snd rl)) seen then dedup_leaves seen r else rl :: dedup_leaves (l_uid (snd rl) :: seen) r
-  end.
 
 Definition common_dtype (l : list (path * leaf)) : option nat :=
   match l with
@@ -295,18 +308,22 @@ Definition common_dtype (l : list (path * leaf)) : option nat :=
   | rl :: r => if forallb (fun x => Nat.eqb (l_dtype (snd x)) (l_dtype (snd rl))) r then Some (l_dtype (snd rl)) else None
   end.
 
-Definition top_keys (s : state) (p : path) : list string :=
-  flat_map (fun ql => match strip p (fst ql) with Some [k] => [k] | _ => [] end) (leaves s)
-  ++ flat_map (fun n => match strip p (n_path n) with Some [k] => [k] | _ => [] end) (nodes s).
+Definition top_keys_at (v : sview) (p : path) : list string :=
+  flat_map (fun ql => match strip p (fst ql) with Some [k] => [k] | _ => [] end) (v_leaves v)
+  ++ flat_map (fun rn => match strip p (fst rn) with Some [k] => [k] | _ => [] end) (v_nodes v).
+Definition top_keys (v : sview) : list string := top_keys_at v [].
 
 Definition str_mem (x : string) (l : list string) : bool := existsb (String.eqb x) l.
 
 (* keys present in every member of a lazy stack *)
-Definition lazy_common_keys (s : state) (p : path) : list string :=
-  match children_nodes s p with
+Definition lazy_common_keys (v : sview) : list string :=
+  match members v with
   | [] => []
-  | m0 :: ms => filter (fun k => forallb (fun m => str_mem k (top_keys s (n_path m))) ms) (top_keys s (n_path m0))
+  | m0 :: ms => filter (fun k => forallb (fun m => str_mem k (top_keys_at v (fst m))) ms) (top_keys_at v (fst m0))
   end.
+
+Definition leaf_paths_at (v : sview) (p : path) : list path :=
+  flat_map (fun ql => match strip p (fst ql) with Some r => [r] | None => [] end) (v_leaves v).
 
 (* ---- results computed FROM another memoised result (the callee's list), as the method bodies do *)
 Definition item_uid (i : item) : option nat := match i with ILeaf l => Some (l_uid l) | INode u => Some u | _ => None end.
@@ -350,9 +367,8 @@ Definition reorder_val (sk : arg) (sub : cval) : cval :=
   | _, _ => VRaise
   end.
 
-(* the result of running method [m] of node [p] afresh (from the tensordict itself, no memoised callee) in state [s] *)
-Definition fresh (s : state) (n : node) (m : meth) (args : list arg) (kwargs : list (string * arg)) : cval :=
-  let p := n_path n in
+(* the result of running method [m] afresh (from the tensordict itself, no memoised callee) on what the node sees *)
+Definition freshv (v : sview) (m : meth) (args : list arg) (kwargs : list (string * arg)) : cval :=
   match bind (fst (signature m)) (snd (signature m)) args kwargs with
   | None => VRaise
   | Some env =>
@@ -363,50 +379,48 @@ Definition fresh (s : state) (n : node) (m : meth) (args : list arg) (kwargs : l
     | MValuesList | MItemsList =>
         (* base.py:7335/7367: is_leaf is honoured only with collapse=True; otherwise _NESTED_TENSORS_AS_LISTS *)
         let mask := if truthy (par env "collapse") then mask_of (par env "is_leaf") mask_default else mask_default in
-        let all := VList (values_of s p (truthy (par env "include_nested")) (truthy (par env "leaves_only")) mask (truthy (par env "collapse"))) in
-        match par env "sorting_keys" with
-        | ANone => all
-        | sk => reorder_val sk all
-        end
-    | MSortedKeys => VKeys (top_keys s p)
+        let all := VList (values_of v (truthy (par env "include_nested")) (truthy (par env "leaves_only")) mask (truthy (par env "collapse"))) in
+        if is_none (par env "sorting_keys") then all else reorder_val (par env "sorting_keys") all
+    | MSortedKeys => VKeys (top_keys v)
     | MFlattenKeys =>
         if truthy (par env "inplace") then VRaise    (* blocked under lock; not a read *)
-        else VTd [([], n_meta n)]
-                 (map (entry_item s p) (filter (fun rl => leaf_ok (mask_of (par env "is_leaf") mask_nontensor) (snd rl)) (leaves_under s p)))
-                 (pins_of (args ++ map snd kwargs))
+        else VTd [([], self_meta v)]
+                 (map (entry_item v) (filter (fun rl => leaf_ok (mask_of (par env "is_leaf") mask_nontensor) (snd rl)) (v_leaves v)))
+                 (pins_of (map snd env))             (* _last_op keeps (args, kwargs) alive *)
     | MUnflattenKeys =>
         if truthy (par env "inplace") then VRaise
-        else VTd (meta_under s p)
-                 (map (fun rl => match l_kind (snd rl) with KTensor => entry_item s p rl | _ => entry_share s p rl end) (leaves_under s p))
-                 (pins_of (args ++ map snd kwargs))
-    | MDetach => VTd (meta_under s p) (map (entry_share s p) (leaves_under s p)) []
-    | MAddBatchDim => VTd (meta_under s p) (map (entry_share s p) (leaves_under s p)) []
-    | MDtype => VOptNat (common_dtype (filter (fun rl => leaf_ok mask_default (snd rl)) (leaves_under s p)))
+        else VTd (metas v)
+                 (map (fun rl => match l_kind (snd rl) with KTensor => entry_item v rl | _ => entry_share v rl end) (v_leaves v))
+                 (pins_of (map snd env))
+    | MDetach => VTd (metas v) (map (entry_share v) (v_leaves v)) []
+    | MAddBatchDim => VTd (metas v) (map (entry_share v) (v_leaves v)) []
+    | MDtype => VOptNat (common_dtype (filter (fun rl => leaf_ok mask_default (snd rl)) (v_leaves v)))
     | MDepth => VNat (fold_right Nat.max 0 (map (fun rl => Nat.pred (List.length (fst rl)))
-                                              (filter (fun rl => leaf_ok mask_nontensor (snd rl)) (leaves_under s p))))
-    | MBytes => VNat (bytes_of (truthy (par env "count_duplicates")) (values_of s p true true mask_default false))
-    | MParamCount => VNat (count_of (truthy (par env "count_duplicates")) (values_of s p true true mask_default false))
+                                              (filter (fun rl => leaf_ok mask_nontensor (snd rl)) (v_leaves v))))
+    | MBytes => VNat (bytes_of (truthy (par env "count_duplicates")) (values_of v true true mask_default false))
+    | MParamCount => VNat (count_of (truthy (par env "count_duplicates")) (values_of v true true mask_default false))
     | MLazyNames =>
         (* _lazy.py:462: the members' names with the stack-dim name inserted; here: the first member's names *)
-        VNames (match children_nodes s p with m0 :: _ => m_names (n_meta m0) | [] => None end)
-    | MKeyList => VKeys (lazy_common_keys s p)
+        VNames (match members v with m0 :: _ => m_names (i_meta (snd m0)) | [] => None end)
+    | MKeyList => VKeys (lazy_common_keys v)
     | MHasExclusive =>
-        VBool (match children_nodes s p with
+        VBool (match members v with
                | [] => false
-               | m0 :: ms => negb (forallb (fun m => forallb (fun k => str_mem k (map (fun rl => String.concat "/" (fst rl)) (leaves_under s (n_path m))))
-                                                              (map (fun rl => String.concat "/" (fst rl)) (leaves_under s (n_path m0)))
-                                                    && Nat.eqb (List.length (leaves_under s (n_path m))) (List.length (leaves_under s (n_path m0)))) ms)
+               | m0 :: ms => negb (forallb (fun m => forallb (fun q => path_mem q (leaf_paths_at v (fst m))) (leaf_paths_at v (fst m0))
+                                                    && Nat.eqb (List.length (leaf_paths_at v (fst m))) (List.length (leaf_paths_at v (fst m0)))) ms)
                end)
     | MLazyGetStr =>
         match par env "key" with
         | AStr k =>
-            let hits := flat_map (fun m => match find_leaf s (n_path m ++ [k]) with Some l => [([k], l)] | None => [] end) (children_nodes s p) in
+            let hits := flat_map (fun m => match find (fun ql => path_eqb (fst ql) (fst m ++ [k])) (v_leaves v) with
+                                           | Some ql => [([k], snd ql)] | None => [] end) (members v) in
             match hits with
-            | [] => VTd (flat_map (fun m => match find_node s (n_path m ++ [k]) with Some c => [(n_path m ++ [k], n_meta c)] | None => [] end)
-                                  (children_nodes s p)) [] (pins_of [par env "default"])         (* a lazy stack of the members' nested nodes / the default *)
+            | [] => VTd (flat_map (fun m => match find (fun rn => path_eqb (fst rn) (fst m ++ [k])) (v_nodes v) with
+                                            | Some rn => [(fst rn, i_meta (snd rn))] | None => [] end) (members v))
+                        [] (pins_of [par env "default"])                  (* a lazy stack of the members' nested nodes / the default *)
             | (_, l) :: _ => match l_kind l with
-                             | KTensor => VTensor                                                  (* torch.stack: a Tensor, never stored *)
-                             | _ => VList (map (fun rl => (fst rl, ILeaf (snd rl))) hits)           (* NonTensorStack of the members' objects *)
+                             | KTensor => VTensor                           (* torch.stack: a Tensor, never stored *)
+                             | _ => VList (map entry_ref hits)              (* NonTensorStack of the members' objects *)
                              end
             end
         | _ => VRaise
@@ -414,18 +428,19 @@ Definition fresh (s : state) (n : node) (m : meth) (args : list arg) (kwargs : l
     end
   end.
 
-(* memoised calls a method makes on the same node while it runs (they fill / hit the cache too) *)
+Definition fresh (s : state) (n : node) (m : meth) (args : list arg) (kwargs : list (string * arg)) : cval :=
+  freshv (view_of s (n_path n)) m args kwargs.
+
+(* memoised calls a method makes on the same node while it runs (they fill / hit the cache too); keyword arguments in sorted order *)
 Definition subcalls (m : meth) (env : list (string * arg)) : list (meth * list arg * list (string * arg)) :=
   match m with
-  | MDepth => [(MNestedKeys, [], [("include_nested", ABool true); ("leaves_only", ABool true);
-                                  ("is_leaf", AObj {| o_addr := 2; o_uid := 2; o_sem := mask_nontensor |}); ("sort", ABool false)])]
+  | MDepth => [(MNestedKeys, [], [("include_nested", ABool true); ("is_leaf", AObj nontensor_fn); ("leaves_only", ABool true);
+                                  ("sort", ABool false)])]
   | MBytes | MParamCount => [(MValuesList, [ABool true; ABool true], [])]
   | MValuesList =>
-      match par env "sorting_keys" with
-      | ANone => []
-      | _ => [(MItemsList, [], [("include_nested", par env "include_nested"); ("leaves_only", par env "leaves_only");
-                                ("is_leaf", par env "is_leaf"); ("collapse", par env "collapse")])]
-      end
+      if is_none (par env "sorting_keys") then []
+      else [(MItemsList, [], [("collapse", par env "collapse"); ("include_nested", par env "include_nested");
+                              ("is_leaf", par env "is_leaf"); ("leaves_only", par env "leaves_only")])]
   | _ => []
   end.
 
@@ -525,7 +540,6 @@ Definition with_lock (n : node) (flag : option bool) (parents : list path) (mm :
   {| n_path := n_path n; n_uid := n_uid n; n_kind := n_kind n; n_flag := flag; n_parents := parents;
      n_memmap := mm; n_meta := n_meta n; n_cache := c |}.
 
-Definition path_mem (p : path) (l : list path) : bool := existsb (path_eqb p) l.
 Definition add_parents (old new : list path) : list path := old ++ filter (fun q => negb (path_mem q old)) new.
 
 (* the chain of nodes from p (included) down to q (excluded) *)
@@ -743,7 +757,7 @@ Definition obs_item (st : list (nat * Z)) (i : item) : oitem :=
 Inductive oval := ObsKeys (l : list path) | ObsItems (meta : list (path * nmeta)) (l : list (path * oitem)) | ObsScalar (v : cval).
 
 Definition view_keys (s : state) (p : path) (incl lo : bool) (mask : nat) : list path :=
-  map fst (values_of s p incl lo mask false).
+  map fst (values_of (view_of s p) incl lo mask false).
 
 Definition observe (s : state) (p : path) (v : cval) : oval :=
   match v with
